@@ -78,6 +78,13 @@ Proof. reflexivity. Qed.
 Lemma gen_update1 : forall added c, g_update1 added c = update1 added c.
 Proof. reflexivity. Qed.
 
+(* ---- Roadm.set_roadm_paths ---- *)
+Lemma gen_add_drop_stage : forall ad, g_add_drop_stage ad = add_drop_stage ad.
+Proof. reflexivity. Qed.
+(* add + drop together are worth exactly 1/add_drop_osnr *)
+Lemma add_drop_total : forall ad, add_drop_stage ad + add_drop_stage ad == ad.
+Proof. intros ad. unfold add_drop_stage. field. Qed.
+
 (* ---- json_io.Transceiver.__init__ ---- *)
 Lemma gen_normalise : forall raw, g_normalise raw = normalise raw.
 Proof. reflexivity. Qed.
